@@ -81,7 +81,7 @@ func (r *Recomposer) registerComposer(rt reflect.Type, fun RecomposeFunc) (*comp
 	if rt.Kind() == reflect.Ptr {
 		rt = rt.Elem()
 	}
-	full := rt.PkgPath() + "/" + rt.Name()
+	full := fullName(rt)
 	// TBD could loosen this up and allow any type as long as a function is provided.
 	if rt.Kind() != reflect.Struct {
 		return nil, fmt.Errorf("only structs can be recomposed. %s is not a struct type", rt)
@@ -128,7 +128,7 @@ func (r *Recomposer) registerAnyComposer(rt reflect.Type, fun RecomposeAnyFunc) 
 	if rt.Kind() == reflect.Ptr {
 		rt = rt.Elem()
 	}
-	full := rt.PkgPath() + "/" + rt.Name()
+	full := fullName(rt)
 	if rt.Kind() != reflect.Struct {
 		return nil, fmt.Errorf("only structs can be recomposed. %s is not a struct type", rt)
 	}
@@ -156,10 +156,20 @@ func (r *Recomposer) composerFor(rt reflect.Type) *composer {
 	if c := r.composers[rt.Name()]; c != nil && c.rtype == rt {
 		return c
 	}
-	if c := r.composers[rt.PkgPath()+"/"+rt.Name()]; c != nil && c.rtype == rt {
+	if c := r.composers[fullName(rt)]; c != nil && c.rtype == rt {
 		return c
 	}
 	return nil
+}
+
+// fullName is the key a type is registered under besides its short name. A
+// type without a name (an anonymous struct) goes by its description so that
+// two of them do not take each other's place.
+func fullName(rt reflect.Type) string {
+	if len(rt.Name()) == 0 {
+		return rt.String()
+	}
+	return rt.PkgPath() + "/" + rt.Name()
 }
 
 // Recompose simple data into more complex go types.
